@@ -7,12 +7,13 @@
     HF:<q> | HF:nan an `np.float32`   (the float cell it holds: value q/4, or NaN)
     DT:<us>         a `datetime.date` (its own constructor: `date != datetime`)
     M8<unit>:<us>   an `np.datetime64[unit]` (unit D|h|s|ms|us|ns): the `dt` cell of its instant
+    M8ps:<n> | M8fs:<n> | M8as:<n>   an `np.datetime64` of n pico / femto / attoseconds since 1970 (the COUNT, not microseconds): `fdt` (attoseconds)
     TD:<us> | PD:<us> | m8<unit>:<us>   `datetime.timedelta` / `pd.Timedelta` / `np.timedelta64[unit]`: the duration `tdelta`
     m8Y:<years> | m8M:<months> | CM:<months>   an `np.timedelta64` in calendar units (scalar; `CM:` = a cell of an `mY` / `mM` array): `cdelta` (months)
     NaT:P | NaT:M | NaT:m   `pd.NaT`, `np.datetime64('NaT')`, `np.timedelta64('NaT')`: `nat`
     (L v*) (T v*)   list / tuple
     (D (hexkey v)*) plain dict;  (DC <n> (hexkey v)*)  dict subclass number n >= 1
-    (A <dtype> (<n>*) v*)        ndarray: dtype word (i f e b U o, Mns Mus Ms MD = datetime64, mns mus mD mY mM = timedelta64;
+    (A <dtype> (<n>*) v*)        ndarray: dtype word (i f e b U o, Mns Mus Ms MD Mps Mfs = datetime64, mns mus mD mY mM = timedelta64;
                                  ignored by the model: `eq` compares cells, not dtypes), shape, cells row-major
     (S (label*) v*)              Series: index labels, values
     (DF (label*) (label*) v*)    DataFrame: index labels, column labels, cells row-major
@@ -37,6 +38,9 @@ partial def ofSexp : Sexp → Option EVal
   | .atom s =>
     if s.startsWith "DT:" then (s.drop 3).toString.toInt?.map .date
     else if s.startsWith "TD:" || s.startsWith "PD:" then (s.drop 3).toString.toInt?.map .tdelta
+    else if s.startsWith "M8ps:" then (s.drop 5).toString.toInt?.map fun n => .fdt (1000000 * n)
+    else if s.startsWith "M8fs:" then (s.drop 5).toString.toInt?.map fun n => .fdt (1000 * n)
+    else if s.startsWith "M8as:" then (s.drop 5).toString.toInt?.map .fdt
     else if s.startsWith "M8" then
       match s.splitOn ":" with
       | [_, n] => n.toInt?.map fun us => .cell (.dt us)
